@@ -82,7 +82,10 @@ def run(prop, mod, C):
             patches.append(pd)
     results = []
     failures = []
-    for p in patches:
+
+    def one(job):
+        """analyse one source variant in its own scratch copy (and its own build lane); returns (result dict, failure or None)"""
+        lane, p = job
         name = os.path.basename(p)[:-6]
         expect = None
         if p in seeded:
@@ -96,33 +99,52 @@ def run(prop, mod, C):
             r = subprocess.run(["patch", "-p1", "-s", "--no-backup-if-mismatch", "-i", p], cwd=d,
                                stdout=subprocess.PIPE, stderr=subprocess.STDOUT, text=True)
             if r.returncode != 0:
-                results.append({"mutant": name, "status": "skipped: patch does not apply to the current tree"})
-                continue
+                return {"mutant": name, "status": "skipped: patch does not apply to the current tree"}, None
             try:
-                data, info = facts.load(repo=d, quiet=True)
+                data, info = facts.load(repo=d, quiet=True, lane=lane)
             except facts.NoVerdict as e:
-                results.append({"mutant": name, "status": "skipped: variant does not compile"})
-                continue
+                return {"mutant": name, "status": "skipped: variant does not compile"}, None
             C2 = verdicts(prop, mod, data)
             failed = [o["key"] for o in C2.obligations if not o["ok"] and (prop, o["key"]) not in C2.known]
+            fail = None
             if prop in RENAME_PROOF:
                 # the variant must be judged the same way with every local renamed
                 C3 = verdicts(prop, mod, renamed(data))
                 failed3 = [o["key"] for o in C3.obligations if not o["ok"] and (prop, o["key"]) not in C3.known]
                 if sorted(failed3) != sorted(failed):
-                    failures.append(name + " (judged differently after renaming locals: %s)" % sorted(set(failed) ^ set(failed3))[:3])
+                    fail = name + " (judged differently after renaming locals: %s)" % sorted(set(failed) ^ set(failed3))[:3]
             if os.sep + "neutral" + os.sep in p:
                 # behaviour-preserving variant: the rules must stay silent
-                results.append({"neutral_variant": name, "silent": not failed, "reported": failed[:8]})
                 if failed:
-                    failures.append(name + " (false alarm on a behaviour-preserving variant)")
-                continue
+                    fail = name + " (false alarm on a behaviour-preserving variant)"
+                return {"neutral_variant": name, "silent": not failed, "reported": failed[:8]}, fail
             hit = [k for k in failed if expect and expect in k]
-            results.append({"mutant": name, "expect": expect, "detected": bool(hit), "reported": failed[:8]})
             if not hit:
-                failures.append(name)
+                fail = fail or name
+            return {"mutant": name, "expect": expect, "detected": bool(hit), "reported": failed[:8]}, fail
         finally:
             shutil.rmtree(d, ignore_errors=True)
+
+    # the variants are independent: analyse them in parallel lanes (each lane has its own cargo target directory)
+    import concurrent.futures
+    import queue
+    lanes = int(os.environ.get("VERIF_LANES", "4"))
+    laneq = queue.Queue()
+    for i in range(lanes):
+        laneq.put(i)
+
+    def run_job(p):
+        lane = laneq.get()
+        try:
+            return one((lane, p))
+        finally:
+            laneq.put(lane)
+
+    with concurrent.futures.ThreadPoolExecutor(max_workers=lanes) as ex:
+        for res, fail in ex.map(run_job, patches):
+            results.append(res)
+            if fail:
+                failures.append(fail)
     C.extra["selftest_mutants"] = results
     C.extra["selftest_rule"] = "each source variant breaks one rule instance and still compiles; the rule must report that instance by key"
     n_det = len([r for r in results if r.get("detected")])
